@@ -47,6 +47,7 @@ package wrr
 //@ func (*randomWRR).Add
 //@   prop C38
 //@   nopanic
+//@   opt qfacts on
 //@   requires rw != nil && wrrInv(rw) && weight >= 0
 //@   requires len(rw.items) == 0 || Z(rw.items[len(rw.items)-1].accumulatedWeight) + Z(weight) <= 9223372036854775807
 //@   ensures len(rw.items) == old(len(rw.items)) + 1
